@@ -382,6 +382,25 @@ let table_cases : (string * expr) list =
     "'10' > i5", b BGt (slit "10") (v "i5");
     "i5 <= '10'", b BLe (v "i5") (slit "10");
     "num ~ '0' > '13'", b BGt (b BConcat (v "num") (slit "0")) (slit "13");
+    "i0 == '-'", b BEq (v "i0") (slit "-");
+    "'-' == i0", b BEq (slit "-") (v "i0");
+    "i0 != '-'", b BNe (v "i0") (slit "-");
+    "'+' == i0", b BEq (slit "+") (v "i0");
+    "'.' == i0", b BEq (slit ".") (v "i0");
+    "'-.' == i0", b BEq (slit "-.") (v "i0");
+    "'' == i0", b BEq (slit "") (v "i0");
+    "' ' == i0", b BEq (slit " ") (v "i0");
+    "'e' == i0", b BEq (slit "e") (v "i0");
+    "'-' < '1'", b BLt (slit "-") (slit "1");
+    "'-' < i5", b BLt (slit "-") (v "i5");
+    "i0 in ['-', 'n/a']", b BIn (v "i0") (EArr [ slit "-"; slit "n/a" ]);
+    "i0 not in ['-', '+', '.']", b BNotIn (v "i0") (EArr [ slit "-"; slit "+"; slit "." ]);
+    "'-0' == i0", b BEq (slit "-0") (v "i0");
+    "'+5' == i5", b BEq (slit "+5") (v "i5");
+    "'5.' == i5", b BEq (slit "5.") (v "i5");
+    "'.5' < i5", b BLt (slit ".5") (v "i5");
+    "'5-' == i5", b BEq (slit "5-") (v "i5");
+    "'--5' == i5", b BEq (slit "--5") (v "i5");
     "1 + 2 in lng", b BIn (b BAdd (i 1) (i 2)) (v "lng");
     "6 / 2 in lng", b BIn (b BDiv (i 6) (i 2)) (v "lng");
     "i3 * 20 in lng", b BIn (b BMul (v "i3") (i 20)) (v "lng");
